@@ -72,13 +72,17 @@ def plan(tier, seed):
 # ---------------------------------------------------------------------------
 # provider configurations: category -> spec;  spec = (kind, value[, op])
 # ---------------------------------------------------------------------------
-OPS = {"eq": operator.eq, "ge": operator.ge, "le": operator.le,
+OPS = {"eq": operator.eq, "ge": operator.ge, "le": operator.le, "ne": operator.ne, "gt": operator.gt, "lt": operator.lt,
        "contains": lambda cur, tag: tag in cur, "never": lambda cur, tag: False}
 
 
 def configs():
     os_specs = [None, ("str", "linux"), ("str", "win"), ("str", "other"), ("lazy", "mac"), ("vo", "linux", "eq"),
-                ("vo", "linux-win", "contains"), ("str", "")]
+                ("vo", "linux-win", "contains"), ("str", ""),
+                # comparisons that are NOT reflexive (the tag value equal to the current value does not match) ...
+                ("vo", "linux", "ne"), ("vo", "linux", "gt"), ("vo", "mac", "lt"),
+                # ... and current values with blanks around them (an environment variable, a line read from a file): "linux " is not "linux"
+                ("str", "linux "), ("lazy", " win"), ("vo", "mac\n", "eq")]
     n_specs = [None, ("num", 3, "eq"), ("num", 3, "ge"), ("num", 3, "le"), ("num", 4, "ge"), ("num", 5, "le"),
                ("str", "3"), ("numlazy", 5, "eq")]
     flag_specs = [None, ("bool", True), ("bool", False)]
